@@ -38,11 +38,21 @@ theorem C27_chunking_sound (i : HIn) (hc : (decideHeader i).chunking = true) :
     beq_eq_false_iff_ne] at hc
   exact ⟨hc.2, hc.1.1.1.1, hc.1.1.2, hc.1.1.1.2⟩
 
+/-- **Histories.**  statusLine()'s process-wide Status-Line cache is transparent: in every history of
+    exchanges (any mix of HTTP/1.0 and HTTP/1.1 requests and statuses, starting from an empty cache) each
+    response is byte-for-byte what the exchange would produce on its own — in particular its status line
+    carries the version of ITS request, whatever was cached before.  (The proof needs the cache key to
+    separate the versions: `CacheOK` = every entry holds the line of its own key.) -/
+theorem C27_cache_transparent (es : List (Req × Bool × List Act)) :
+    ∀ sb ∈ history [] es, sb.2 = render sb.1 :=
+  history_ok es [] (by intro kl h; simp at h)
+
 /-! ### Layers of `C27_parses` (reference parser applied to the rendered bytes)
 
-  Proved so far, each at full strength for its layer; NOT yet proved: the header-block layer
-  (`parseHeaderLines` of the rendered lines), the chunked layer (`dechunk` of the rendered chunks, needs a
-  `parseHexLine (hexNat n) = some n` lemma) and the composition into
+  Proved so far, each at full strength for its layer: line splitter, status line, Content-Length body,
+  hex round trip, chunked body.  NOT yet proved: the header-block layer (`parseHeaderLines` of the
+  rendered lines), the model invariant "every piece is non-empty", the link between `rfcFraming` of the
+  emitted lines and the writer's chunking / contentLength state, and hence the composition into
   `rfcResponse isHead (render s) = some ⟨…, status, lines, body = accepted writes, rest = [], complete⟩`.
   Until then that clause is exercised by the driver on every case and by the `verdictOf … = "ok"` examples. -/
 
@@ -66,6 +76,24 @@ theorem C27_parses_layer_cl (payload rest : Bytes) :
     decide (payload.length ≤ (payload ++ rest).length) = true := by
   refine ⟨(cl_body payload rest).1, (cl_body payload rest).2, by simp⟩
 
+/-- hex round trip (bfe_server's chunkWriter writes the size with `%x`): the size line reads back as the
+    same number and contains no CR. -/
+theorem C27_parses_layer_hex (n : Nat) (h : n < 16 ^ 64) :
+    parseHexLine (hexNat n) = some n ∧ ∀ b ∈ hexNat n, b ≠ 13 :=
+  parseHexLine_hexNat n h
+
+/-- chunked layer: what the writer puts behind the head in chunking mode — one chunk per
+    chunkWriter.Write (`pieces`, each non-empty), then `0\r\n\r\n` — is decoded by the RFC 7230 §4.1
+    reference decoder to exactly the concatenated payloads, marked complete, with `rest` left over
+    (`rest = []` for one response; for a pipelined stream the next response).
+    The hypothesis "every piece is non-empty" is an invariant of the model's bufio/chunkWriter (a Write of
+    0 bytes never reaches the chunkWriter); it is not yet proved as a theorem about `respond`. -/
+theorem C27_parses_layer_chunked (pieces : List Bytes) (rest : Bytes)
+    (hne : ∀ p ∈ pieces, p ≠ []) (hl : ∀ p ∈ pieces, p.length < 16 ^ 64) :
+    dechunk (pieces.length + 1) (pieces.flatMap (renderPiece true) ++ strBytes "0\r\n\r\n" ++ rest) []
+      = some (pieces.flatten, rest, true) := by
+  simpa using dechunk_pieces pieces rest [] (pieces.length + 1) hne hl (by omega)
+
 /-! ### Witnesses: the full statement fails on the unchanged code (replayed in corpus/C27/known.ops) -/
 
 def get11 : Req := { isHead := false, proto11 := true, conn := "", clNonZero := false, bodyLeft := 0 }
@@ -85,7 +113,7 @@ theorem C27_witness_1xx :
 
 /-- the verdict of the SPEC oracle on the model's own bytes -/
 def verdictOf (rq : Req) (script : List Act) : String :=
-  judge rq.isHead script (respond rq true script).close (respond rq true script).writeRes
+  judge rq.isHead rq.proto11 script (respond rq true script).close (respond rq true script).writeRes
     (render (respond rq true script))
 
 /-! The full statement `∀ rq script, verdictOf rq script = "ok"` is false in five ways (one theorem per
@@ -118,6 +146,17 @@ set_option maxRecDepth 16000 in
 example : verdictOf { get11 with isHead := true } [.write [97, 98]] = "ok" := by decide
 set_option maxRecDepth 16000 in
 example : verdictOf { get11 with proto11 := false } [.flush, .write [97, 98]] = "ok" := by decide
+
+/-! A history with a version flip at equal status (HTTP/1.0 then HTTP/1.1, both 200): verdict `ok` for both. -/
+set_option maxRecDepth 16000 in
+example : (history [] [({ get11 with proto11 := false }, true, []), (get11, true, [])]).map
+            (fun sb => judge sb.1.rq.isHead sb.1.rq.proto11 [] sb.1.close sb.1.writeRes sb.2) = ["ok", "ok"] := by decide
+/-- what the oracle says to an HTTP/1.0 status line in front of a chunked body for an HTTP/1.1 request -/
+example : judge false true [] false []
+    (statusLine false 200 ++ crlf ++ strBytes "Transfer-Encoding: chunked" ++ crlf ++ crlf ++ strBytes "0\r\n\r\n")
+    = "FAIL:chunked-on-http10-status" := by decide
+example : judge false true [] false []
+    (statusLine false 200 ++ crlf ++ strBytes "Content-Length: 0" ++ crlf ++ crlf) = "FAIL:status-version-wrong" := by decide
 
 /-! Non-vacuity: ordinary exchanges. -/
 example : NothingAfterHead (respond get11 true [.writeHeader 204]) := by decide
